@@ -103,6 +103,9 @@ func (c *FnCtx) evalCall(st *State, call *ast.CallExpr) []*Val {
 		if pv, ok := ci.local.(*types.Var); ok && c.isParam(pv) {
 			return c.traceCallback(st, call, pv, args)
 		}
+		if fv != nil && fv.Ext {
+			return c.havocResults(st, c.typeOf(call))
+		}
 		return c.callUnknown(st, call, "call through function value "+ci.local.Name())
 	case ci.fn != nil:
 		var recv *Val
@@ -589,6 +592,8 @@ func (c *FnCtx) runDefers(st *State) []*State {
 				} else if ci.local != nil {
 					if fv := c.evalLocalFn(l, ci.local); fv != nil && fv.Fn != nil {
 						c.inlineLit(l, fv.Fn, d.args, d.call)
+					} else if fv != nil && fv.Ext {
+						// function value made by external code: cannot touch repo state
 					} else {
 						c.callUnknown(l, d.call, "deferred call through function value")
 					}
@@ -610,6 +615,14 @@ func (c *FnCtx) runDefers(st *State) []*State {
 // callFunc applies the callee's contract (or havocs).
 func (c *FnCtx) callFunc(st *State, call *ast.CallExpr, fn *types.Func, recv *Val, args []*Val) []*Val {
 	key := typesFuncKey(fn)
+	for _, a := range args {
+		if a != nil && a.S == SInt {
+			c.escaped[a.T] = true
+		}
+	}
+	if recv != nil && recv.S == SInt {
+		c.escaped[recv.T] = true
+	}
 	sig, _ := fn.Type().(*types.Signature)
 	con := c.V.specs.Contracts[key]
 	if con != nil && con.Flags["sweep-only"] {
@@ -1031,7 +1044,17 @@ func (c *FnCtx) callNoContract(st *State, call *ast.CallExpr, fn *types.Func, re
 	if sig == nil {
 		return nil
 	}
-	return c.havocResults(st, sig.Results())
+	rs := c.havocResults(st, sig.Results())
+	if !c.isRepoFunc(fn) {
+		for _, r := range rs {
+			if r.Typ != nil {
+				if _, isFn := r.Typ.Underlying().(*types.Signature); isFn {
+					r.Ext = true
+				}
+			}
+		}
+	}
+	return rs
 }
 
 // closureArgsArbitrary: a closure literal handed to a callee that gives no iteration contract for it may be called
